@@ -1,6 +1,6 @@
 // hC08: correspondence harness for property C08 (limit/passes semantics, clean end of ammo).
 //
-// Case line:
+// Case lines:
 //
 //	cell <kind> <preload 0|1> <limit> <passes> <n> <consumers> <cancel>
 //
@@ -22,6 +22,7 @@ import (
 	"strconv"
 	"strings"
 	"sync"
+	"time"
 
 	"verifharness/internal/a08"
 	"verifharness/internal/vh"
@@ -34,6 +35,9 @@ func runCell(c string) (out string) {
 		}
 	}()
 	f := strings.Split(c, " ")
+	if len(f) == 7 && f[0] == "engine" {
+		return runEngineCell(f)
+	}
 	if len(f) != 8 || f[0] != "cell" {
 		return "unknown-case"
 	}
@@ -51,7 +55,32 @@ func runCell(c string) (out string) {
 	if err != nil {
 		return "0 - blocked construct:" + strings.ReplaceAll(err.Error(), " ", "_")
 	}
-	return a08.Observe(b, consumers, cancel).String()
+	return a08.Observe(b, consumers, cancel, limit+passes*n+1000).String()
+}
+
+// engine <kind> <preload> <limit> <passes> <n> <instances>: the provider under the real engine.
+// Observation: <shots> <sorted seq> <Engine.Run result> <Engine.Wait returned 0|1>
+func runEngineCell(f []string) string {
+	kind := f[1]
+	preload := f[2] == "1"
+	limit, _ := strconv.Atoi(f[3])
+	passes, _ := strconv.Atoi(f[4])
+	n, _ := strconv.Atoi(f[5])
+	inst, _ := strconv.Atoi(f[6])
+	b, err := a08.Build(kind, preload, limit, passes, a08.DefaultEntries(n), nil)
+	if err != nil {
+		return "0 - construct:" + strings.ReplaceAll(err.Error(), " ", "_") + " 0"
+	}
+	shots, res, waited := a08.ObserveEngine(b, inst, limit+passes*n+50)
+	s := "-"
+	if len(shots) > 0 {
+		parts := make([]string, len(shots))
+		for i, v := range shots {
+			parts[i] = strconv.Itoa(v)
+		}
+		s = strings.Join(parts, ",")
+	}
+	return fmt.Sprintf("%d %s %s %s", len(shots), s, res, vh.B(waited))
 }
 
 type provCfg struct {
@@ -89,6 +118,14 @@ func gen(r *vh.Rand, tier string) []string {
 						out = append(out, fmt.Sprintf("cell %s %d %d %d %d %d %s", pc.kind, pc.preload, limit, passes, n, cons, cancel))
 					}
 				}
+			}
+		}
+	}
+	// every provider under the real engine: instances see end of ammo, Engine.Run returns nil
+	for _, pc := range provCfgs() {
+		for _, lp := range [][2]int{{3, 0}, {0, 2}, {4, 3}, {7, 2}} {
+			for _, n := range ns {
+				out = append(out, fmt.Sprintf("engine %s %d %d %d %d %d", pc.kind, pc.preload, lp[0], lp[1], n, 1+(n+lp[0])%3))
 			}
 		}
 	}
@@ -143,16 +180,33 @@ func (w *worker) stop() {
 	_ = w.cmd.Wait()
 }
 
+// do runs one cell in the worker; a worker that does not answer within cellTimeout is reported
+// as a hang of the cell (the caller kills it).
 func (w *worker) do(c string) (string, error) {
 	if _, err := io.WriteString(w.in, c+"\n"); err != nil {
 		return "", err
 	}
-	l, err := w.out.ReadString('\n')
-	if err != nil {
-		return "", err
+	type res struct {
+		l   string
+		err error
 	}
-	return strings.TrimRight(l, "\n"), nil
+	ch := make(chan res, 1)
+	go func() {
+		l, err := w.out.ReadString('\n')
+		ch <- res{l, err}
+	}()
+	select {
+	case r := <-ch:
+		if r.err != nil {
+			return "", r.err
+		}
+		return strings.TrimRight(r.l, "\n"), nil
+	case <-time.After(cellTimeout):
+		return "0 - blocked hang", nil
+	}
 }
+
+const cellTimeout = 60 * time.Second
 
 func workerMain() {
 	sc := bufio.NewScanner(os.Stdin)
@@ -208,7 +262,7 @@ func runAll(cases []string) []string {
 						o = "0 - blocked worker-died"
 					}
 					out[i] = o
-					if strings.HasSuffix(o, " hang") || strings.HasSuffix(o, " panic") {
+					if strings.Contains(o, " hang") || strings.Contains(o, " panic") {
 						// a goroutine of the provider may still be running: do not reuse the process
 						w.stop()
 						w = nil
